@@ -91,6 +91,50 @@ AggVerdict(q, R, c) ==
      ELSE IF \E g \in KG : ~AggsOK(R[CHOOSE i \in RowForGroup(R, q, g, c) : TRUE], q, g, c) THEN "AggregateValue"
      ELSE "ok"
 
+(* The general form: group keys that are expressions or are not selected, and ORDER BY over group keys / aliases.  A row cannot be
+   located by its key bindings then, so rows and groups are matched by a bijection under which every row carries its group's
+   (selected) keys and allowed aggregate values; ORDER BY is judged on the rows with their group's key variables added back. *)
+IsVarE(e) == e.e = "var"
+RowMatches(row, q, grp, c) ==
+  /\ AggsOK(row, q, grp, c)
+  /\ \A j \in 1..Len(q.groupby) :
+        (IsVarE(q.groupby[j]) /\ q.groupby[j].v \in SToSet(q.proj)) =>
+           LET kv == EvalExpr(q.groupby[j], grp[1], c)  v == q.groupby[j].v
+           IN IF IsErr(kv) THEN v \notin DOMAIN row ELSE v \in DOMAIN row /\ row[v] = kv
+AugRow(row, q, grp, c) ==
+  LET extra == {q.groupby[j].v : j \in {jj \in 1..Len(q.groupby) : IsVarE(q.groupby[jj]) /\ ~IsErr(EvalExpr(q.groupby[jj], grp[1], c))}} \ DOMAIN row
+  IN [v \in DOMAIN row \cup extra |-> IF v \in DOMAIN row THEN row[v] ELSE grp[1][v]]
+RECURSIVE PermSeqs(_)
+PermSeqs(S) == IF S = {} THEN {<<>>} ELSE UNION {{<<x>> \o p : p \in PermSeqs(S \ {x})} : x \in S}
+Injections(n) == PermSeqs(1..n)
+MaxPerm == 5      \* n! arrangements are searched up to this many groups; beyond it rows and groups are only required to cover each other
+AggGeneral(q) == Has(q, "orderby") \/ \E j \in 1..Len(q.groupby) : ~IsVarE(q.groupby[j]) \/ q.groupby[j].v \notin SToSet(q.proj)
+AggVerdictPerm(q, R, c) ==
+  LET Om == EvalGroup(q.where, c, EmptyMu)
+      GS == IF q.groupby = <<>> THEN {Om} ELSE (IF Om = <<>> THEN {} ELSE Groups(Om, q.groupby, c))
+      KG == {g \in GS : Kept(q, g, c)}
+      GSq == SetToSeq(KG)
+      n == Len(R)
+      keys == IF Has(q, "orderby") THEN q.orderby ELSE <<>>
+  IN IF q.groupby # <<>> /\ Om = <<>>
+     THEN (IF n = 0 \/ (n = 1 /\ DOMAIN R[1] \cap {q.groupby[j].v : j \in {jj \in 1..Len(q.groupby) : IsVarE(q.groupby[jj])}} = {}) THEN "ok" ELSE "GroupCount")
+     ELSE IF n # Cardinality(KG) THEN "GroupCount"
+     ELSE IF n > MaxPerm
+          THEN (IF (\A i \in 1..n : \E g \in KG : RowMatches(R[i], q, g, c)) /\ (\A g \in KG : \E i \in 1..n : RowMatches(R[i], q, g, c)) THEN "ok" ELSE "AggregateValue")
+     ELSE IF ~\E p \in Injections(n) : \A i \in 1..n : RowMatches(R[i], q, GSq[p[i]], c) THEN "AggregateValue"
+     ELSE IF ~\E p \in Injections(n) : /\ (\A i \in 1..n : RowMatches(R[i], q, GSq[p[i]], c))
+                                          /\ OrderedOK([k2 \in 1..n |-> AugRow(R[k2], q, GSq[p[k2]], c)], keys, c) THEN "OrderedOK"
+     ELSE "ok"
+
+(* variables of a sort expression; "?" stands for "not analysed" and is never a projected variable *)
+RECURSIVE SortVars(_)
+SortVars(e) == CASE e.e = "var" -> {e.v}
+                 [] e.e = "const" -> {}
+                 [] e.e \in {"+", "-", "*", "=", "!=", "<", ">", "<=", ">=", "&&", "||", "sameterm"} -> SortVars(e.a) \cup SortVars(e.b)
+                 [] e.e \in {"!", "isiri", "isliteral", "isblank"} -> SortVars(e.a)
+                 [] e.e = "bound" -> {e.v}
+                 [] OTHER -> {"?"}
+
 (* ---- one query -------------------------------------------------------------------------- *)
 Inst(x, mu) == IF IsVar(x) THEN (IF x.v \in DOMAIN mu THEN mu[x.v] ELSE Err) ELSE x
 ConstructSet(q, Om) ==
@@ -114,11 +158,11 @@ QueryVerdict0(q0, e, c0) ==
   ELSE IF q.form = "ask" THEN (IF r.v = (Len(EvalGroup(q.where, c, EmptyMu)) > 0) THEN "ok" ELSE "AskAgrees")
   ELSE IF q.form = "construct" THEN (IF SToSet(r.triples) = ConstructSet(q, EvalGroup(q.where, c, EmptyMu)) THEN "ok" ELSE "ConstructAgrees")
   ELSE IF Has(q, "aggs") THEN
-       (IF SToSet(r.vars) # SToSet(q.proj) THEN "ProjectOK" ELSE AggVerdict(q, r.rows, c))
+       (IF SToSet(r.vars) # SToSet(q.proj) THEN "ProjectOK" ELSE IF AggGeneral(q) THEN AggVerdictPerm(q, r.rows, c) ELSE AggVerdict(q, r.rows, c))
   ELSE LET ex == EvalQuery(q, c)
            \* ORDER BY happens before projection: when a key is not among the projected variables its effect is not
            \* observable row by row, and only the multiset / slice size is judged
-           keys == IF Has(q, "orderby") /\ (\A i \in 1..Len(q.orderby) : q.orderby[i].e.e = "var" /\ q.orderby[i].e.v \in ex.vars)
+           keys == IF Has(q, "orderby") /\ (\A i \in 1..Len(q.orderby) : SortVars(q.orderby[i].e) \subseteq ex.vars)
                    THEN q.orderby ELSE <<>>
            off  == IF Has(q, "offset") THEN q.offset ELSE 0
            lim  == IF Has(q, "limit") THEN q.limit ELSE 0 - 1
